@@ -1191,7 +1191,11 @@ func ZipWith1[A, B any](obsB Observable[B]) func(Observable[A]) Observable[lo.Tu
 
 					if (completedA && len(valueA) == 0) ||
 						(completedB && len(valueB) == 0) {
+						mu.Unlock() // unlock before completing: the teardown takes the lock
+
 						destination.CompleteWithContext(ctx) // @TODO: Send the last context ?
+
+						return
 					}
 				}
 
@@ -1258,7 +1262,11 @@ func ZipWith2[A, B, C any](obsB Observable[B], obsC Observable[C]) func(Observab
 					if (completedA && len(valueA) == 0) ||
 						(completedB && len(valueB) == 0) ||
 						(completedC && len(valueC) == 0) {
+						mu.Unlock() // unlock before completing: the teardown takes the lock
+
 						destination.CompleteWithContext(ctx) // @TODO: Send the last context ?
+
+						return
 					}
 				}
 
@@ -1332,7 +1340,11 @@ func ZipWith3[A, B, C, D any](obsB Observable[B], obsC Observable[C], obsD Obser
 						(completedB && len(valueB) == 0) ||
 						(completedC && len(valueC) == 0) ||
 						(completedD && len(valueD) == 0) {
+						mu.Unlock() // unlock before completing: the teardown takes the lock
+
 						destination.CompleteWithContext(ctx) // @TODO: Send the last context ?
+
+						return
 					}
 				}
 
@@ -1414,7 +1426,11 @@ func ZipWith4[A, B, C, D, E any](obsB Observable[B], obsC Observable[C], obsD Ob
 						(completedC && len(valueC) == 0) ||
 						(completedD && len(valueD) == 0) ||
 						(completedE && len(valueE) == 0) {
+						mu.Unlock() // unlock before completing: the teardown takes the lock
+
 						destination.CompleteWithContext(ctx) // @TODO: Send the last context ?
+
+						return
 					}
 				}
 
@@ -1505,7 +1521,11 @@ func ZipWith5[A, B, C, D, E, F any](obsB Observable[B], obsC Observable[C], obsD
 						(completedD && len(valueD) == 0) ||
 						(completedE && len(valueE) == 0) ||
 						(completedF && len(valueF) == 0) {
+						mu.Unlock() // unlock before completing: the teardown takes the lock
+
 						destination.CompleteWithContext(ctx) // @TODO: Send the last context ?
+
+						return
 					}
 				}
 
@@ -1578,8 +1598,11 @@ func zipAllInnerSubscriptions[T any](outerCtx context.Context, sources []Observa
 
 			for i := range sources {
 				if completed[i] && len(values[i]) == 0 {
+					mu.Unlock() // unlock before completing: the teardown takes the lock
+
 					destination.CompleteWithContext(ctx) // @TODO: Send the last context ?
-					break
+
+					return
 				}
 			}
 		}
